@@ -482,11 +482,65 @@ fn node_ref_strategy() -> impl Strategy<Value = NodeRefCase> {
         .prop_map(|(tasks, schedule, start)| NodeRefCase { tasks, schedule, start })
 }
 
+/// A node started against the harness's EPMD: what EPMD assigned is the creation in force for everything the node makes.
+#[derive(Clone, Debug, Serialize, Deserialize)]
+pub struct EpmdCase {
+    pub creation: u32,
+    /// EPMD answers with the older ALIVE2_RESP (16-bit creation) instead of ALIVE2_X_RESP
+    pub legacy: bool,
+}
+
+pub fn epmd_oracle(c: &EpmdCase) -> Verdict {
+    use crate::netbed::{run_case, BedErr};
+    let c2 = c.clone();
+    let res = run_case(std::time::Duration::from_secs(30), move |bed| async move {
+        let c = c2;
+        *bed.epmd_creation.lock().unwrap() = c.creation;
+        *bed.epmd_legacy.lock().unwrap() = c.legacy;
+        let node = crate::netbed::started_node().await?;
+        let want = if c.legacy { c.creation & 0xffff } else { c.creation };
+        let mut got: Vec<(&'static str, u32)> = vec![("Node::creation()", node.creation())];
+        got.push(("make_reference()", node.make_reference().creation));
+        got.push(("pid allocator", node.verif_pid_allocator().allocate().map(|p| p.creation).unwrap_or(u32::MAX - 7)));
+        if let Ok(pid) = node.spawn(crate::nodebed::Recorder { log: crate::nodebed::new_log(), gate: None }).await {
+            got.push(("spawned process", pid.creation));
+        }
+        Ok::<_, String>((want, got))
+    });
+    match res {
+        Ok(Ok((want, got))) => {
+            for (what, cr) in &got {
+                if *cr != want {
+                    return Verdict::Fail {
+                        signature: "identifier-creation-differs-from-epmd".into(),
+                        detail: format!("EPMD assigned creation {want} ({} reply) but {what} carries {cr}", if c.legacy { "ALIVE2_RESP" } else { "ALIVE2_X_RESP" }),
+                    };
+                }
+            }
+            Verdict::Pass(CaseInfo::nt(fp(&format!("{:?}", c))).class(if c.legacy { "epmd:alive2-resp" } else { "epmd:alive2-x-resp" }))
+        }
+        Ok(Err(e)) => Verdict::Fail { signature: "harness:netbed".into(), detail: e },
+        Err(BedErr::Setup(e)) => Verdict::Fail { signature: "harness:netbed".into(), detail: e },
+        Err(BedErr::RealTimeCap) => Verdict::Fail { signature: "node-start-hangs".into(), detail: "Node::start against the harness's EPMD did not return".into() },
+    }
+}
+
+fn epmd_cases() -> Vec<EpmdCase> {
+    let mut v = vec![];
+    for creation in [1u32, 2, 3, 255, 256, 65_535, 65_536, 0x0102_0304, 0x8000_0000, u32::MAX] {
+        v.push(EpmdCase { creation, legacy: false });
+        if creation <= 65_535 {
+            v.push(EpmdCase { creation, legacy: true });
+        }
+    }
+    v
+}
+
 pub fn run(run: &mut Run) {
     run.rule = "(a) exhaustive depth-first exploration of every schedule of 2..3 threads x 1..3 allocations (pids: from 7 counter positions incl. immediately before the wrap point and the serial's \
         32-bit wrap; references: counter at 0 and at 2^32-5..2^32-1) under a baton-passing scheduler that parks each thread at every instrumented step of allocate()/make_reference(); (b) random schedules \
         for 2..4 threads; (c) sequential histories of 3 x 2^20 + 10 allocations across three wraps with creation changes; (d) plain OS-thread stress across the wrap point (no hooks). Oracle: pids pairwise \
-        distinct, id in 1..=2^20, none equals a pid the current epoch had already issued, creation as stored, ids restart at 1, no deadlock. Non-trivial = a schedule that switched threads between two \
+        distinct, id in 1..=2^20, creation of a started node's pids and references = what EPMD assigned (both reply forms, (e)), none equals a pid the current epoch had already issued, creation as stored, ids restart at 1, no deadlock. Non-trivial = a schedule that switched threads between two \
         scheduling points, or a history / scenario that crosses the wrap"
         .into();
     run.assumptions = vec![
@@ -530,6 +584,8 @@ pub fn run(run: &mut Run) {
     }
     run.extra.insert("schedules_explored".into(), serde_json::json!(total));
     run.extra.insert("all_listed_scenarios_exhausted".into(), serde_json::json!(exhaustive_all));
+    // (e) the creation comes from EPMD: both reply forms, values across the 16-bit boundary
+    run.enumerate("epmd-creation", epmd_cases().into_iter(), epmd_oracle);
     // (b)
     run.prop("random-schedules", schedule_strategy, run.tier.pick(1500, 100_000), schedule_oracle);
     // (c)
@@ -577,5 +633,6 @@ pub fn replays() -> Vec<ReplayEntry> {
         replay_entry("long-histories", history_oracle),
         replay_entry("os-thread-stress", stress_oracle),
         replay_entry("node-references", node_ref_oracle),
+        replay_entry("epmd-creation", epmd_oracle),
     ]
 }
